@@ -48,7 +48,10 @@ def build(tier, seed):
         pre = "len(V) == %d and 0 <= npos <= %d and 0 <= ks < %d and len(A) == %d and len(K) == %d" % (nv, maxpos, len(ks), maxpos, maxk)
         if name in ("recursive",):
             pre += " and all(-2 <= x <= 3 for x in A) and all(-2 <= x <= 3 for x in K)"
-        tpls.append(sce.Template("C11:placement:%s" % name, src, params, pre, observe="trace", budget=100, hook="call_f", meta={"kwsets": [list(x) for x in ks], "maxpos": maxpos}))
+        t = sce.Template("C11:placement:%s" % name, src, params, pre, observe="trace", budget=100, hook="call_f", meta={"kwsets": [list(x) for x in ks], "maxpos": maxpos})
+        # explicit witnesses (the generic sample generator does not understand all(...) bounds)
+        t.samples = [{"V": [1, 2][:nv], "npos": p, "ks": k, "star": st, "A": [1, 2, 3, 1][:maxpos], "K": [0, 1, 2][:maxk]} for p, k, st in ((1, 0, False), (2, 1, True), (0, 0, False), (3, 2, False))]
+        tpls.append(t)
     return tpls, {"shapes_universe": len(shapes), "shapes_checked": len(chosen), "placement_templates": len(fam.PLACEMENT_TEMPLATES)}
 
 
